@@ -411,6 +411,36 @@ def _vals_equal(a: bytes, b: bytes) -> bool:
 
 
 def run_plan(plan, cfg=None):
+    """-> result dict.  With plan["capacity_sweep"] the same problem and inputs are run under
+    EVERY initial capacity 1..8 (fault enumeration over the capacity knob for that case)."""
+    if plan.get("capacity_sweep") and not plan.get("backend_c"):
+        import copy
+
+        first = None
+        for cap in plan["capacity_sweep"]:
+            p = copy.deepcopy(plan)
+            p["capacity"] = cap
+            p["capacity_sweep"] = None
+            r = _run_plan(p)
+            if first is None:
+                first = r
+            else:
+                for k, v in r.get("stats", {}).items():
+                    first["stats"][k] = first["stats"].get(k, 0) + v
+            if r["verdict"] == "violation":
+                plan.clear()
+                plan.update(p)  # the failing capacity becomes the plan of record
+                r["probes"] = dict(r.get("probes", {}), capacity_sweeps=1)
+                return r
+            if r["verdict"] == "skipped":
+                return r
+        first["probes"] = dict(first.get("probes", {}), capacity_sweeps=1,
+                               capacities_enumerated=len(plan["capacity_sweep"]))
+        return first
+    return _run_plan(plan)
+
+
+def _run_plan(plan, cfg=None):
     """-> result dict: verdict ok|skipped|violation, violations, stats, digest, probes."""
     heap = SIM.heap
     res = {"verdict": "ok", "violations": [], "stats": {}, "probes": {}, "skip": None}
@@ -512,7 +542,10 @@ def gen_plan(seed, cfg):
     from ..workload import CATALOGUE, gen_k_plan
 
     tier = (cfg or {}).get("tier", "quick")
-    return gen_k_plan(seed, seed % 8, CATALOGUE, p_backend_c=0.04 if tier == "quick" else 0.1)
+    plan = gen_k_plan(seed, seed % 8, CATALOGUE, p_backend_c=0.04 if tier == "quick" else 0.1)
+    if tier == "thorough" and not plan["backend_c"] and seed % 10 == 3:
+        plan["capacity_sweep"] = [1, 2, 3, 4, 5, 6, 7, 8]
+    return plan
 
 
 def run(plan, cfg=None):
@@ -582,6 +615,9 @@ def _replace(e, path, new):
 def shrink_candidates(plan):
     """Yield simpler plans, most aggressive first."""
     import copy
+
+    if plan.get("capacity_sweep"):
+        return
 
     def cp():
         return copy.deepcopy(plan)
